@@ -6,7 +6,9 @@
 (* decodes those bytes itself and compares with the input, checks the      *)
 (* length bound and the location table.  `readers_ok` reports that         *)
 (* read-fonts / skrifa returned the input glyphs (checked by the harness   *)
-(* against the input, not against this decoder).                           *)
+(* against the input, not against this decoder).  A `glyf_read` event      *)
+(* carries the bytes of one glyph of a corpus font and what read-fonts     *)
+(* decoded from them.                                                      *)
 (***************************************************************************)
 EXTENDS Glyf, TraceIO
 
@@ -52,6 +54,15 @@ TGlyfBig ==
   /\ (Ev.loca_format = "short") => ShortLocaOK(Ev.loca)
   /\ \A i \in 1..Ev.n : Ev.loca[i] < Ev.loca[i + 1]           \* every glyph of these tables has data
   /\ Ev.readers_ok
+\* a glyph of a real font: what the reader decoded from these bytes is what the specification decodes
+TGlyfRead ==
+  /\ IsEvent("glyf_read")
+  /\ LET d == Decode(Ev.bytes)  g == Ev.glyph IN
+     CASE g.kind = "empty" -> Len(Ev.bytes) = 0
+       [] g.kind = "simple" -> /\ d.kind = "simple" /\ d.bbox = JSimple(g).bbox /\ d.contours = JSimple(g).contours
+                               /\ d.instr = g.instr /\ d.used <= Len(Ev.bytes)
+       [] g.kind = "composite" -> /\ d.kind = "composite" /\ d.bbox = <<g.bbox[1], g.bbox[2], g.bbox[3], g.bbox[4]>>
+                                  /\ d.comps = [i \in DOMAIN g.comps |-> JComp(g.comps[i])] /\ d.instr = g.instr
 TInit == l = 1
-TraceSpec == TInit /\ [][TGlyf \/ TGlyfBig]_l
+TraceSpec == TInit /\ [][TGlyf \/ TGlyfBig \/ TGlyfRead]_l
 =============================================================================
